@@ -156,6 +156,20 @@ fn cases() -> Vec<Case> {
             }
         }
     }
+    // Family A2: composition offset of the FIRST frame (and of a lone frame)
+    for &c in &ctss {
+        for two in [false, true] {
+            let d0: u64 = 1 << 33;
+            let p0 = d0 as i128 + c as i128;
+            let ts = if two { vec![(p0 as u64, d0), (d0 + 3000, d0 + 3000)] } else { vec![(p0 as u64, d0)] };
+            if !ts.iter().all(|&(p, d)| tick_is_robust(secs(p)) && tick_is_robust(secs(d)) && tick(secs(p)) == p && tick(secs(d)) == d) {
+                continue;
+            }
+            let cfg = Cfg::basic(VCodec::H265, if two { Some(ACodec::Opus) } else { None }, c % 2 == 0);
+            let ops = ts.iter().enumerate().map(|(i, &(p, d))| Op::WVD { pts: T(secs(p)), dts: T(secs(d)), data: if i == 0 { key(VCodec::H265, 1) } else { delta(VCodec::H265, 2) }, key: i == 0 }).collect();
+            v.push(Case::Prog { name: format!("first-frame-cts/cts={c}/frames={}", ts.len()), cfg, ops });
+        }
+    }
     // Family B: audio gaps after one video frame
     for &g1 in &g {
         for g2 in std::iter::once(None).chain(g.iter().map(|&x| Some(x))) {
@@ -424,7 +438,7 @@ pub fn check(ctx: &Ctx) -> i32 {
         &tally,
         Meta {
             level: "exploration",
-            rule: format!("{n} boundary cases: video decode-time gaps g1 (x optional g2) over {{3000, 2^31-1, 2^31, 2^31+1, 2^32-2, 2^32-1, 2^32, 2^32+1}} ticks x composition offset of the second frame over {{0, +-(2^31-1), +-2^31, +-(2^31+1)}} from start {{0, 2^33}} (cumulative durations crossing 2^32 included); the same gap product for AAC and Opus audio; parameter sets of 65534..65537 bytes (SPS) x {{4, 65535, 65536}} (PPS) x VPS; dimensions {{65535, 65536, 65537, 131072, u32::MAX}} x {{480, 65535, 65536}} x 4 codecs with and without frames; audio rates {{65535, 65536, 88200, 96000, u32::MAX}} x channels {{1, 6, 255, 256, 65535}}; absolute timestamps near 2^40, 2^52, 2^53 ticks and 1e15/1e300/f64::MAX s; fragmented DTS gaps {{2^32-1, 2^32, 2^33}} x composition offsets around 2^31; init segments with dimensions and parameter sets around 2^16. Oracle: the crossing call returns Err, or every numeric field the reader decodes equals the exact integer recomputed from the submitted history (no 32-bit escape). Same enumeration in both tiers. Distinct by (results, output bytes)."),
+            rule: format!("{n} boundary cases: video decode-time gaps g1 (x optional g2) over {{3000, 2^31-1, 2^31, 2^31+1, 2^32-2, 2^32-1, 2^32, 2^32+1}} ticks x composition offset of the second frame (and, separately, of the first / only frame) over {{0, +-(2^31-1), +-2^31, +-(2^31+1)}} from start {{0, 2^33}} (cumulative durations crossing 2^32 included); the same gap product for AAC and Opus audio; parameter sets of 65534..65537 bytes (SPS) x {{4, 65535, 65536}} (PPS) x VPS; dimensions {{65535, 65536, 65537, 131072, u32::MAX}} x {{480, 65535, 65536}} x 4 codecs with and without frames; audio rates {{65535, 65536, 88200, 96000, u32::MAX}} x channels {{1, 6, 255, 256, 65535}}; absolute timestamps near 2^40, 2^52, 2^53 ticks and 1e15/1e300/f64::MAX s; fragmented DTS gaps {{2^32-1, 2^32, 2^33}} x composition offsets around 2^31; init segments with dimensions and parameter sets around 2^16. Oracle: the crossing call returns Err, or every numeric field the reader decodes equals the exact integer recomputed from the submitted history (no 32-bit escape). Same enumeration in both tiers. Distinct by (results, output bytes)."),
             bound: "three inputs (below / at / above) per narrowing site, pairwise with neighbouring sites".into(),
             exhaustive: true,
             assumptions: vec!["descriptor lengths near 2^8 and box sizes near 2^32 are unreachable from inputs of feasible size and are not claimed".into(), "mvhd/tkhd durations may match any track and any rounding direction; only wrapped/clipped values are violations".into()],
